@@ -31,7 +31,7 @@ ASSUMPTIONS = ["regex layers are anchored alternations of module names so that t
 SHARD_TIMEOUT = {"quick": 900, "thorough": 3000}
 
 TOP = ["r.a", "r.b", "r.c", "r.d", "r.e", "r.f", "r.ab", "r.a_b"]
-SUBS = ["r.a.x", "r.a.y", "r.b.x", "r.c.z", "r.f.q", "r.f.q.w", "r.ab.x", "r.d.k"]
+SUBS = ["r.a.x", "r.a.y", "r.b.x", "r.b.y", "r.c.z", "r.c.a", "r.f.q", "r.f.q.w", "r.ab.x", "r.d.k", "r.d.m"]
 ACC = {
     ("import", False): "access_layers_that",
     ("be", False): "be_accessed_by_layers_that",
@@ -103,6 +103,15 @@ def run_shard(spec, acc):
                 layers[f"L{j}"] = ms
         if len(layers) < 2:
             continue
+        for name in list(layers):
+            if rnd.random() < 0.2:
+                # redundant but legal: a module listed next to one of its own ancestors inside the same layer
+                below = [m for m in mods if any(is_ancestor(x, m) for x in layers[name])]
+                if below:
+                    layers[name] = layers[name] + [rnd.choice(below)]
+                    if rnd.random() < 0.5:
+                        layers[name].reverse()
+                    acc.count("layers_with_nested_lists")
         kinds = {name: rnd.choice(["named", "named", "regex"]) for name in layers}
         names = list(layers)
         rnd.shuffle(names)
@@ -137,6 +146,18 @@ def run_shard(spec, acc):
             acc.count("forced_mixed_object_layers")
         else:
             imps = random_imports(rnd, mods, k_max=8)
+        if rnd.random() < 0.15:
+            # a layer listing its root next to the FIRST of several children, with imports that involve a later child
+            for name in names:
+                root_ = layers[name][0] if not any(is_ancestor(x, layers[name][0]) for x in layers[name]) else min(layers[name], key=len)
+                kids = sorted(m for m in mods if m.rsplit(".", 1)[0] == root_)
+                if len(kids) >= 2:
+                    layers[name] = [root_, kids[0]] if rnd.random() < 0.5 else [kids[0], root_]
+                    outside = [m for m in mods if m != "r" and not related(m, root_)]
+                    extra = [(kids[-1], rnd.choice(outside)), (rnd.choice(outside), kids[-1]), (kids[-1], kids[0])]
+                    imps = sorted(set(imps) | set(rnd.sample(extra, rnd.randint(1, 3))))
+                    acc.count("forced_nested_list_with_later_sibling")
+                    break
         for name in layers:
             acc.hist("layer_kind", kinds[name])
         cfg = {"verb": verb, "dir": d, "exc": exc, "anything": anything, "subject": subject, "objects": objects}
@@ -163,9 +184,11 @@ def floors(acc, tier):
         for o in ("pass", "fail"):
             if h.get(f"{s}:{o}", 0) == 0:
                 why.append(f"shape {s} never observed with outcome {o}")
-    for c in ("forced_intra_layer_only", "forced_unmentioned_regex_layer", "forced_mixed_object_layers"):
+    for c in ("forced_intra_layer_only", "forced_unmentioned_regex_layer", "forced_mixed_object_layers", "forced_nested_list_with_later_sibling"):
         if acc.counters[c] < 50:
             why.append(f"{c}: only {acc.counters[c]}")
+    if acc.counters["c05_judged_nested_layer_lists"] < 200:
+        why.append(f"only {acc.counters['c05_judged_nested_layer_lists']} evaluations with a module listed next to its ancestor inside one layer")
     if acc.counters["c05_judged"] < 5000:
         why.append(f"only {acc.counters['c05_judged']} evaluations judged")
     return why
